@@ -173,10 +173,16 @@ return:表项地址，若缓冲区已经读取完毕返回NULL
 */
 u8_t *buffergroup::require_buffer_entry(const u8_t id)
 {
-  u8_t *result = buflst[id].get_entry();
+  // the buffer belongs to this worker only while it is READY: do not look at it before
+  u8_t *result = NULL;
+  if (ctrl[id].cmpstate(READY))
+  {
+    result = buflst[id].get_entry();
+    if (result == NULL)
+      ctrl[id].set_update(); // chunk used up: hand it back
+  }
   if (result == NULL)
   {
-    ctrl[id].set_update();
     ctrl[id].wait_ready();
     if (ctrl[id].cmpstate(READY))
       result = buflst[id].get_entry();
